@@ -24,7 +24,7 @@ func init() {
 			"with 0 accidentals the flat/sharp flag is reported as sharp (false): the circle of fifths has no flats there",
 			"tempo domain is the set of BPM values 60e6/f for every 24-bit field value f >= 1 (every representable tempo)",
 		},
-		Require: []string{"appends_to_returned_messages", "empty_texts_through_a_used_variable", "shared_out_variable_reads", "text_len_ge_128", "seqdata_len_ge_128", "tempo_fields", "named_keys", "key_tuples", "timesig_tuples", "meta_msgs_classified", "text_dictionary_points", "nil_pattern_calls"},
+		Require: []string{"appends_to_returned_messages", "empty_texts_through_a_used_variable", "shared_out_variable_reads", "text_len_ge_128", "seqdata_len_ge_128", "tempo_fields", "named_keys", "key_tuples", "timesig_tuples", "meta_msgs_classified", "text_dictionary_points", "nil_pattern_calls", "damaged_text_events_queried_before_the_same_text"},
 		Run:     runC15,
 	})
 }
@@ -115,6 +115,18 @@ func runC15(c *mon.Ctx) {
 				t = bytes.Repeat([]byte{0xFF}, n)
 			default:
 				t = bytes.Repeat([]byte{byte('a' + r.Intn(26))}, n)
+			}
+			if n >= 1 && n <= 120 && r.P(1, 2) {
+				// a damaged event with the same text bytes was looked at just before (length byte too large: data missing; too
+				// small: bytes left over): whatever the accessor made of it, it must not colour the well-formed event
+				ln := n + 1 + r.Intn(5)
+				if r.Bool() {
+					ln = n - 1 - r.Intn(n)
+				}
+				bad := smf.Message(append([]byte{0xFF, k.typ, byte(ln)}, t...))
+				var tmp string
+				c.Guard("panic:malformed-text", map[string]any{"message": mon.Hex(bad)}, func() { k.get(bad, &tmp) })
+				c.Count("damaged_text_events_queried_before_the_same_text", 1)
 			}
 			m := k.mk(string(t))
 			c.Count("text_points", 1)
